@@ -10,6 +10,7 @@ import TonVerif.Proofs.Merkle
 import TonVerif.Proofs.Binding
 import TonVerif.Proofs.PruneWF
 import TonVerif.Proofs.OrdCell
+import TonVerif.Proofs.Locate
 
 namespace TonVerif.Properties.C11
 open TonVerif TonVerif.Model TonVerif.Proofs.CellSpec TonVerif.Proofs.Prune TonVerif.Proofs.Merkle
@@ -171,12 +172,21 @@ theorem c11_header_state_sound (root : PCell) (h sh : Bytes) (hacc : checkBlockH
             exact ⟨su, c, rfl, h21, hc.1, hh, hc.2⟩
   · cases hacc
 
-/-! ## account proofs -/
+/-! ## account proofs
 
-/-- SOUNDNESS of the account check (no hash assumption): if `check_account_proof` returns, there were exactly two
-roots, both pass `check_proof` (against the block root hash resp. the state hash `sh` that the header's Merkle
-update commits to), the state proof's child has level-0 hash `sh`, and the REPRESENTATION hash (`Cell.hash`) of the
-supplied account state equals the level-0 hash of the account cell located in the proved state. -/
+`check_account_proof(proof, shrd_blk, address, account_state_root)` is `checkAccountProof O roots blk addr state`
+(`roots = Cell.from_boc(proof)`, `blk = shrd_blk.root_hash`, `addr = address.hash_part`).  The TL-B walk
+`ShardStateUnsplit.deserialize(st).accounts[0][addr].cell[0]` is the CONCRETE function `locateAccount`
+(Model/Locate.lean): state header fields, `load_hashmap_aug_e` over the whole `ShardAccounts` dictionary (C10 label
+reader), `DepthBalanceInfo`, `ShardAccount`, the `^[…]` group, `custom`.  `O : Opaque` = the verdicts of the two
+sub-parsers that are not modelled (`Account.deserialize` on an `account$1` cell, `McStateExtra.deserialize` on an
+ordinary cell); every theorem below holds for ALL `O` and says so by quantifying over it. -/
+open TonVerif.Proofs.Locate
+
+/-- SOUNDNESS of the account check, composition (no hash assumption): if `check_account_proof` returns, there were
+exactly two roots, both pass `check_proof` (against the block root hash resp. the state hash `sh` that the header's
+Merkle update commits to), the state proof's child `st` has level-0 hash `sh`, the TL-B walk over `st` returned a cell
+`acc`, and the REPRESENTATION hash (`Cell.hash`) of the supplied account state equals the level-0 hash of `acc`. -/
 theorem c11_account_sound (O : Opaque) (roots : List PCell) (blk addr : Bytes) (state : PCell)
     (hacc : checkAccountProof O roots blk addr state = true) :
     ∃ p0 p1 hdr st acc sh, roots = [p0, p1] ∧ checkProof p0 blk = true ∧ p0.refs[0]? = some hdr ∧
@@ -210,6 +220,34 @@ theorem c11_account_sound (O : Opaque) (roots : List PCell) (blk addr : Bytes) (
     exact ⟨p0, p1, hdr, st, acc, sh, rfl, by simpa using h0, hhdr, hsh, hst, hs, by simpa using h1, hl, hacc⟩
   · cases hacc
 
+/-- WHAT THE WALK FINDS (the former parameter `locate`, now a theorem).  If
+`ShardStateUnsplit.deserialize(st.begin_parse()).accounts[0][int.from_bytes(addr,'big')].cell[0]` returns `acc` for a
+32-byte address, then `st` is an ordinary cell carrying the `shard_state#9023afe2` tag and ≥ 361 data bits, and `acc` is
+the cell that the lookup-only reading of block.tlb / hashmap.tlb designates (`lookupShardAccount`): `st[1]` is an
+ordinary cell `ahme_root$1 root:^…`, the dictionary walk from `root = st[1][0]` along the 256 bits of `addr` (each
+label a prefix of the remaining key, the next key bit choosing the left or right reference) ends in a leaf, and `acc`
+is the `account:^Account` reference of that leaf's `ShardAccount` (the first reference after the `DepthBalanceInfo`
+extra, 320 value bits present).  So the dictionary of the proved state maps `addr` to a `ShardAccount` whose account
+cell is `acc` — for every behaviour `O` of the unmodelled sub-parsers and whatever is pruned off the path. -/
+theorem c11_locate_sound (O : Opaque) (st : PCell) (addr : Bytes) (acc : PCell) (hl : addr.length = 32) (hw : Bytes.WF addr)
+    (h : locateAccount O st addr = some acc) :
+    st.info.kind = kOrdinary ∧ 361 ≤ st.info.bits.length ∧ st.info.bits.take 32 = shardStateTag ∧
+    lookupShardAccount pcellView st (bytesToBits addr) = some acc := by
+  obtain ⟨hk, hlen, htag, _⟩ := locateAccount_some h
+  exact ⟨hk, hlen, htag, locateAccount_lookup O st addr acc hl hw h⟩
+
+/-- SOUNDNESS of the account check down to the dictionary: acceptance for a 32-byte address implies everything
+`c11_account_sound` lists AND that the `ShardAccounts` dictionary of the proved state cell `st` maps the address to a
+`ShardAccount` whose account reference `acc` has as level-0 hash the representation hash of the supplied state. -/
+theorem c11_account_sound_lookup (O : Opaque) (roots : List PCell) (blk addr : Bytes) (state : PCell)
+    (hl : addr.length = 32) (hw : Bytes.WF addr) (hacc : checkAccountProof O roots blk addr state = true) :
+    ∃ p0 p1 hdr st acc sh, roots = [p0, p1] ∧ checkProof p0 blk = true ∧ p0.refs[0]? = some hdr ∧
+      checkBlockHeaderProofState hdr blk = some sh ∧ p1.refs[0]? = some st ∧ st.info.getHash 0 = some sh ∧
+      checkProof p1 sh = true ∧ lookupShardAccount pcellView st (bytesToBits addr) = some acc ∧
+      acc.info.getHash 0 = some state.info.hash := by
+  obtain ⟨p0, p1, hdr, st, acc, sh, e, h0, hhdr, hsh, hst, hs, h1, hloc, hh⟩ := c11_account_sound O roots blk addr state hacc
+  exact ⟨p0, p1, hdr, st, acc, sh, e, h0, hhdr, hsh, hst, hs, h1, (c11_locate_sound O st addr acc hl hw hloc).2.2.2, hh⟩
+
 /-- A claimed account state whose own hash is not the committed one is rejected. -/
 theorem c11_account_reject (O : Opaque) (roots : List PCell) (blk addr : Bytes) (state : PCell)
     (hne : ∀ st acc, locateAccount O st addr = some acc → acc.info.getHash 0 ≠ some state.info.hash) :
@@ -219,6 +257,22 @@ theorem c11_account_reject (O : Opaque) (roots : List PCell) (blk addr : Bytes) 
   | true =>
     obtain ⟨_, _, _, st, acc, _, _, _, _, _, _, _, _, hl, hh⟩ := c11_account_sound O roots blk addr state hc
     exact absurd hh (hne st acc hl)
+
+/-- An address the dictionary of the proved state cell does not hold (the lookup-only walk fails: label mismatch,
+pruned or malformed path, no `ShardAccounts` root) is rejected, whatever else the proof contains. -/
+theorem c11_account_reject_absent (O : Opaque) (p0 p1 st : PCell) (blk addr : Bytes) (state : PCell)
+    (hl : addr.length = 32) (hw : Bytes.WF addr) (hst : p1.refs[0]? = some st)
+    (hno : lookupShardAccount pcellView st (bytesToBits addr) = none) :
+    checkAccountProof O [p0, p1] blk addr state = false := by
+  cases hc : checkAccountProof O [p0, p1] blk addr state with
+  | false => rfl
+  | true =>
+    obtain ⟨q0, q1, _, st', acc, _, e, _, _, _, hst', _, _, hlk, _⟩ :=
+      c11_account_sound_lookup O [p0, p1] blk addr state hl hw hc
+    simp only [List.cons.injEq, and_true] at e
+    obtain ⟨rfl, rfl⟩ := e
+    rw [hst] at hst'; cases hst'
+    rw [hlk] at hno; cases hno
 
 /-- The F12 scenario: the supplied "state" is a spec-valid PRUNED-BRANCH cell (whatever hashes it carries, e.g. the
 committed one as its level-0 hash).  Its `Cell.hash` is `H` of its own representation, whose first byte has the
@@ -248,17 +302,86 @@ theorem c11_account_reject_pruned (H : Bytes → Bytes) (O : Opaque) (roots : Li
   unfold Spec.d1 at hd
   cases e <;> simp at hd <;> omega
 
-/-- COMPLETENESS of the account check: if both roots pass `check_proof` (c11_complete gives this for every pruning of
-the block header and of the shard state), the header's Merkle update commits to the state hash, and the account
-cell located in the (pruned) state proof has as level-0 hash the representation hash of the supplied state — by
-pruning invariance (c02_prune_invariant) that holds whether the account cell is present in full or pruned — then
-`check_account_proof` returns. -/
+/-- COMPLETENESS of the account check, composition: if both roots pass `check_proof` (c11_complete gives this for every
+pruning of the block header and of the shard state), the header's Merkle update commits to the state hash, the TL-B walk
+over the (pruned) state cell returns `acc` (`c11_locate_complete`), and `acc` has as level-0 hash the representation hash
+of the supplied state — by pruning invariance (c02_prune_invariant) that holds whether the account cell is present in
+full or pruned — then `check_account_proof` returns. -/
 theorem c11_account_complete (O : Opaque) (p0 p1 hdr st acc state : PCell) (blk addr sh : Bytes)
     (h0 : checkProof p0 blk = true) (hhdr : p0.refs[0]? = some hdr) (hsh : checkBlockHeaderProofState hdr blk = some sh)
     (hst : p1.refs[0]? = some st) (hs : st.info.getHash 0 = some sh) (h1 : checkProof p1 sh = true)
     (hl : locateAccount O st addr = some acc) (hh : acc.info.getHash 0 = some state.info.hash) :
     checkAccountProof O [p0, p1] blk addr state = true := by
   simp [checkAccountProof, h0, hhdr, hsh, hst, hs, h1, hl, hh]
+
+/-- COMPLETENESS of the walk on HONEST state proofs (any pruning off the path).  Let the state cell `st` be an ordinary
+cell with the `shard_state` tag, the `ShardIdent` tag `00` and ≥ 362 bits, references `omq :: accs :: grp :: …` (`omq` is
+never parsed — any cell, e.g. a pruned branch); `accs` an ordinary cell `1 ++ extra` with references `root :: …` whose
+top-level `extra:DepthBalanceInfo` is readable; `root` an ordinary cell that is a spec-valid `HashmapAug 256 ShardAccount
+DepthBalanceInfo` — EVERY label in any of the constructors short/long/same that can express it, ANY edge replaced by a
+non-ordinary cell (pruned branch), extras and leaves of the unpruned part readable (`ValidAugP`; for a leaf that
+includes: its account cell is non-empty and, if it starts with bit 1, `Account.deserialize` accepts it) — whose unpruned
+leaves `kv` still hold the address with account reference `acc`; the `^[…]` group `grp` pruned or readable
+(`stateRefGroup`); `custom` absent (bit 361 = 0), or its cell pruned, or accepted by `McStateExtra.deserialize`.  Then
+`ShardStateUnsplit.deserialize(st).accounts[0][addr].cell[0]` returns `acc`. -/
+theorem c11_locate_complete (O : Opaque) (st omq accs grp root : PCell) (rest2 emore : List PCell) (erest : Bits)
+    (kv : List (Bits × PCell)) (addr : Bytes) (acc : PCell)
+    (hk : st.info.kind = -1) (hlen : 361 < st.info.bits.length) (htag : st.info.bits.take 32 = shardStateTag)
+    (hsi : (st.info.bits.drop 64).take 2 = [false, false]) (hrefs : st.refs = omq :: accs :: grp :: rest2)
+    (hak : accs.info.kind = -1) (hab : accs.info.bits = true :: erest) (har : accs.refs = root :: emore)
+    (hext : ∃ sl, readDepthBalance (erest, emore) = some sl) (hrk : root.info.kind = -1)
+    (hv : ValidAugP readDepthBalance (readShardAccount O) 256 root kv) (hmem : (bytesToBits addr, acc) ∈ kv)
+    (hw : Bytes.WF addr) (hgrp : stateRefGroup grp = true)
+    (hcu : st.info.bits[361]? = some false ∨
+      ∃ cu more, rest2 = cu :: more ∧ (cu.info.kind ≠ -1 ∨ O.mcExtra cu = true)) :
+    locateAccount O st addr = some acc :=
+  locateAccount_complete O st omq accs grp root rest2 emore erest kv addr acc hk hlen htag hsi hrefs hak hab har hext hrk
+    hv hmem hw hgrp hcu
+
+/-! Non-vacuity of `c11_locate_complete` / `c11_locate_sound`: a one-account shard state (address 00…00; the leaf label
+is `hml_same 0 × 256`, 12 bits; extras `split_depth 0, grams 0, no extra currencies`; `account_none`; out-queue and `^[…]`
+group pruned; no `custom`) meets every hypothesis, for every `O`. -/
+def exInfo (kind : Int) (bits : Bits) (n : Nat) : CellInfo := ⟨kind, bits, n, 0, [], []⟩
+def exAcc : PCell := .mk (exInfo (-1) [false] 0) []
+def exExtra : Bits := List.replicate 10 false
+def exLabel : Bits := true :: true :: false :: natToBits 9 256
+def exLeaf : PCell := .mk (exInfo (-1) (exLabel ++ (exExtra ++ List.replicate 320 false)) 1) [exAcc]
+def exAccs : PCell := .mk (exInfo (-1) (true :: exExtra) 1) [exLeaf]
+def exPruned : PCell := .mk (exInfo 1 [] 0) []
+def exState : PCell := .mk (exInfo (-1) (shardStateTag ++ List.replicate 330 false) 3) [exPruned, exAccs, exPruned]
+def exAddr : Bytes := List.replicate 32 0
+
+theorem exExtra_reads (r : Bits) (refs : List PCell) : readDepthBalance (exExtra ++ r, refs) = some (r, refs) := by
+  have h4 : ∀ n : Nat, ¬ (n + 1 + 1 + 1 + 1 + 1 < 4) := by intro n; omega
+  simp [readDepthBalance, readCurrencyCollection, loadCoinsRest, readExtraCurrencies, exExtra, List.replicate, natOfBits, h4]
+
+theorem exLeaf_valid (O : Opaque) :
+    ValidAugP readDepthBalance (readShardAccount O) 256 exLeaf [(List.replicate 256 false, exAcc)] := by
+  have hl : Spec.Hashmap.LabelEnc 256 (List.replicate 256 false) .same exLabel := by
+    have := Spec.Hashmap.LabelEnc.same (m := 256) (s := List.replicate 256 false) false
+      (by rw [List.length_replicate]) (by rw [List.length_replicate])
+    have e : Spec.Hashmap.lenBits 256 = 9 := by decide +kernel
+    rw [List.length_replicate, e] at this
+    exact this
+  refine ValidAugP.leaf hl (List.length_replicate ..) rfl rfl (exExtra_reads _ _) ?_
+  unfold readShardAccount
+  simp only [exAcc, exInfo, PCell.info, List.length_replicate]
+  simp
+
+example (O : Opaque) : locateAccount O exState exAddr = some exAcc ∧ exAddr.length = 32 ∧ Bytes.WF exAddr ∧
+    lookupShardAccount pcellView exState (bytesToBits exAddr) = some exAcc := by
+  have hbits : bytesToBits exAddr = List.replicate 256 false := by decide +kernel
+  have hw : Bytes.WF exAddr := by intro b hb; simp [exAddr] at hb; omega
+  have htl : shardStateTag.length = 32 := by decide +kernel
+  have h : locateAccount O exState exAddr = some exAcc := by
+    refine c11_locate_complete O exState exPruned exAccs exPruned exLeaf [] [] exExtra _ exAddr exAcc rfl
+      ?_ ?_ (by decide +kernel) rfl rfl rfl rfl ⟨_, by simpa using exExtra_reads [] []⟩ rfl (exLeaf_valid O)
+      (by rw [hbits]; exact List.mem_singleton.2 rfl) hw rfl (Or.inl (by decide +kernel))
+    · show 361 < (shardStateTag ++ List.replicate 330 false).length
+      rw [List.length_append, List.length_replicate, htl]; omega
+    · show (shardStateTag ++ List.replicate 330 false).take 32 = shardStateTag
+      exact List.take_left' htl
+  exact ⟨h, rfl, hw, (c11_locate_sound O exState exAddr exAcc rfl hw h).2.2.2⟩
 
 /-! ## binding: what an accepted hash pins down -/
 open TonVerif.Proofs.Binding
